@@ -507,6 +507,21 @@ def used_has(U, L):
 
 
 @spec
+def extends(L, L0):
+    """L starts with the elements of L0 (stated so that a term L0[k] brings L[k] into play)"""
+    return len(L) >= len(L0) and forall(lambda k: implies(0 <= k and k < len(L0), L[k] == L0[k]), pats=["ident(L0[k].nt1_3d)"])
+
+
+@spec
+def added(U, U0, x):
+    """U is U0 plus at most the element x"""
+    return forall(lambda n1, n2, lw, sg, u, v: implies(
+        rec(BasePair3D, nt1=n1, nt2=n2, lw=lw, saenger=sg, nt1_3d=u, nt2_3d=v) in U,
+        rec(BasePair3D, nt1=n1, nt2=n2, lw=lw, saenger=sg, nt1_3d=u, nt2_3d=v) == x
+        or rec(BasePair3D, nt1=n1, nt2=n2, lw=lw, saenger=sg, nt1_3d=u, nt2_3d=v) in U0))
+
+
+@spec
 def used_only(U, L):
     """the set U holds nothing but elements of the list L"""
     return forall(lambda n1, n2, lw, sg, u, v: implies(
@@ -529,12 +544,18 @@ class base_pairs_body(base_pairs_callee):
     loops = {0: {"index": "c", "inv": ["used_has(used, result)", "used_only(used, result)", "distinct(result)", "lifted_from(self, result, c)", "lifts_all(self, result, c)"]}}
     ghost = [
         {"when": "after", "at": "bp = BasePair3D(", "label": "lifted", "do": ["assert resolvable(self, base_pair) and is_lift(self, bp, base_pair)"]},
+        {"when": "before", "at": "result.append(bp)", "label": "r0", "do": ["let R0 = result"]},
         {"when": "after", "at": "result.append(bp)", "label": "appended",
-         "do": ["assert result[len(result) - 1] == bp and is_lift(self, result[len(result) - 1], base_pair)", "assert distinct(result)"]},
-        {"when": "after", "at": "used.add(bp)", "label": "used", "do": ["assert used_has(used, result)", "assert used_only(used, result)"]},
+         "do": ["assert extends(result, R0)", "assert result[len(result) - 1] == bp and is_lift(self, result[len(result) - 1], base_pair)", "assert distinct(result)"]},
+        {"when": "before", "at": "used.add(bp)", "label": "used0", "do": ["let U0 = used"]},
+        {"when": "after", "at": "used.add(bp)", "label": "used",
+         "do": ["assert added(used, U0, bp)", "assert used_has(used, result)", "assert used_only(used, result)"]},
+        {"when": "before", "at": "result.append(bp.reverse)", "label": "r1", "do": ["let R1 = result"]},
         {"when": "after", "at": "result.append(bp.reverse)", "label": "appended-reverse",
-         "do": ["assert is_rev_lift(self, result[len(result) - 1], base_pair)", "assert distinct(result)"]},
-        {"when": "after", "at": "used.add(bp.reverse)", "label": "used-reverse", "do": ["assert used_has(used, result)", "assert used_only(used, result)"]},
+         "do": ["assert extends(result, R1)", "assert is_rev_lift(self, result[len(result) - 1], base_pair)", "assert distinct(result)"]},
+        {"when": "before", "at": "used.add(bp.reverse)", "label": "used1", "do": ["let U1 = used"]},
+        {"when": "after", "at": "used.add(bp.reverse)", "label": "used-reverse",
+         "do": ["assert added(used, U1, result[len(result) - 1])", "assert used_has(used, result)", "assert used_only(used, result)"]},
     ]
 
 
